@@ -418,6 +418,58 @@ class EngineExec:
 
         return self.loop.create_task(_consume())
 
+    def consume_stream_in_sittings(self, handler: Any, first_n: int, expose_internal: bool = True) -> Any:
+        """a consumer that stops listening after ``first_n`` events (closes the stream generator, e.g. after the first progress
+        event or an InputRequiredEvent) and attaches again later, at an explorer-chosen point; what the two sittings saw,
+        put together, is the stream the consumer got"""
+        h = self.h
+
+        async def _sit(limit: int | None) -> None:
+            ended = False
+            try:
+                gen = handler.stream_events(expose_internal=expose_internal)
+                n = 0
+                try:
+                    async for ev in gen:
+                        h.stream.append(ev)
+                        n += 1
+                        if isinstance(ev, StopEvent):
+                            ended = True  # (the terminal event: the consumer has the whole stream, whatever its limit)
+                            break
+                        if limit is not None and n >= limit:
+                            break
+                    else:
+                        ended = True
+                finally:
+                    await gen.aclose()
+            except BaseException as e:  # noqa: BLE001
+                h.stream_error = e
+                ended = True
+                if isinstance(e, asyncio.CancelledError):
+                    raise
+            finally:
+                if ended or limit is None:
+                    h.stream_done = True
+
+        st = {"left": False, "again": False}
+
+        async def _first() -> None:
+            await _sit(first_n)
+            st["left"] = True
+            if st["again"] and not h.stream_done:
+                await _sit(None)  # (it was asked to come back before it had left: it comes back at once)
+
+        def _again() -> None:
+            if st["left"]:
+                if not h.stream_done:
+                    self.loop.create_task(_sit(None))
+            else:
+                st["again"] = True
+
+        first = self.loop.create_task(_first())
+        self.add_script([Action("consumer attaches again", _again)])
+        return first
+
     def enabled(self) -> list[Action]:
         h = self.h
         acts: list[Action] = []
